@@ -13,3 +13,4 @@ open GoSQLXModel
 #print axioms Lex.token_limit_refuses
 #print axioms Props.C02.token_count_is_bounded
 #print axioms Props.C02.token_limit_refuses_reference_text
+#print axioms Props.C02.gen_depth_counted_until_left
